@@ -20,6 +20,11 @@
 // a dozen dedicated envelopes whose expiry / NotAfter / NotBefore lies 4 s after the start of the run are verified at the start and again at the end on the same verifier
 // objects (see "long-lived verifier cases"): a verdict must follow the real clock over the
 // lifetime of a verifier.  Only for those cases the margin is relaxed to a few seconds.
+//
+// stages.go adds two dedicated stages: the TSA chain judged by notation-core-go's real revocation
+// validator over an in-memory CRL transport, and real-time probes a few hundred milliseconds around
+// expiry / NotAfter / NotBefore.  Both revocation validators are wrapped in recorders: what they are
+// asked (which chain, which authentic signing time) is part of the observation.
 package c06
 
 import (
@@ -33,6 +38,7 @@ import (
 	"os"
 	"time"
 
+	"github.com/notaryproject/notation-core-go/revocation"
 	revresult "github.com/notaryproject/notation-core-go/revocation/result"
 	"github.com/notaryproject/notation-core-go/signature"
 	_ "github.com/notaryproject/notation-core-go/signature/jws"
@@ -84,6 +90,9 @@ type Obs struct {
 	Evaluated    bool `json:"evaluated"`
 	ExpiryFailed bool `json:"expiryFailed"`
 	AuthTsFailed bool `json:"authTsFailed"`
+	// what the revocation validators were asked (see checkRevocationArgs)
+	TsaRevocationArgsOk     bool `json:"tsaRevocationArgsOk"`
+	SigningRevocationArgsOk bool `json:"signingRevocationArgsOk"`
 }
 
 var target = ocispec.Descriptor{MediaType: "application/vnd.oci.image.manifest.v1+json", Digest: digest.FromString("c06 artifact"), Size: 12}
@@ -96,16 +105,17 @@ const (
 // the TSAs of the world; all share a validity of base -/+ 10 years except `short`
 type world struct {
 	base      time.Time
-	tsaA      *TSA // root in tsa:c06tsa
-	tsaB      *TSA // root in tsa:other
-	tsaC      *TSA // root in no store
-	nonCrit   *TSA // root A, timestamping EKU not critical
-	codeSign  *TSA // root A, code signing EKU (critical)
-	twoEKU    *TSA // root A, timestamping + code signing EKU (critical)
-	badKU     *TSA // root A, key usage DigitalSignature|KeyEncipherment: breaks ValidateTimestampingCertChain only
-	short     *TSA // root A, signing certificate valid for one day, 400 days ago
-	caStoreTS *TSA // root held by the *ca* store of the signing chain's type only (not a tsa store)
-	expired   *TSA // root A, signing certificate expired 50 days ago (valid at earlier timestamps only)
+	tsaA      *TSA            // root in tsa:c06tsa
+	tsaB      *TSA            // root in tsa:other
+	tsaC      *TSA            // root in no store
+	nonCrit   *TSA            // root A, timestamping EKU not critical
+	codeSign  *TSA            // root A, code signing EKU (critical)
+	twoEKU    *TSA            // root A, timestamping + code signing EKU (critical)
+	badKU     *TSA            // root A, key usage DigitalSignature|KeyEncipherment: breaks ValidateTimestampingCertChain only
+	short     *TSA            // root A, signing certificate valid for one day, 400 days ago
+	caStoreTS *TSA            // root held by the *ca* store of the signing chain's type only (not a tsa store)
+	expired   *TSA            // root A, signing certificate expired 50 days ago (valid at earlier timestamps only)
+	crlTSA    map[string]*TSA // root A, signing certificates naming a CRL distribution point (stages.go)
 }
 
 func newWorld() *world {
@@ -121,6 +131,7 @@ func newWorld() *world {
 	w.twoEKU = NewTSA(TSAOpts{Tag: "A-twoeku", NotBefore: nb, NotAfter: na, Root: w.tsaA.Root, LeafEKU: []x509.ExtKeyUsage{x509.ExtKeyUsageTimeStamping, x509.ExtKeyUsageCodeSigning}})
 	w.badKU = NewTSA(TSAOpts{Tag: "A-keyusage", NotBefore: nb, NotAfter: na, Root: w.tsaA.Root, LeafKeyUsage: x509.KeyUsageDigitalSignature | x509.KeyUsageKeyEncipherment})
 	w.short = NewTSA(TSAOpts{Tag: "A-short", NotBefore: base.Add(-400 * day * time.Second), NotAfter: base.Add(-399 * day * time.Second), Root: w.tsaA.Root})
+	w.crlTSA = newCRLTSAs(w.tsaA.Root, nb, na)
 	w.expired = NewTSA(TSAOpts{Tag: "A-expired", NotBefore: nb, NotAfter: base.Add(-50 * day * time.Second), Root: w.tsaA.Root})
 	return w
 }
@@ -553,6 +564,9 @@ type prepared struct {
 	storeType   string
 	root        *x509.Certificate
 	trustStores []string
+	chain       []*x509.Certificate // the envelope's certificate chain
+	signingTime time.Time
+	tsaChain    []*x509.Certificate // signing certificate and root of the TSA that issued the token (nil: no token)
 }
 
 // rel hands an instant to the model: nanoseconds relative to the reference instant, shifted by the
@@ -574,6 +588,7 @@ func concretise(w *world, p plan, id int, ref time.Time) *prepared {
 	}
 	chain := mintChain(fmt.Sprintf("c06-%d", id), nbT, naT)
 	q.root = chain.Root().Cert
+	q.chain = chain.X509()
 
 	scheme := schemeX509
 	q.storeType = "ca"
@@ -581,6 +596,7 @@ func concretise(w *world, p plan, id int, ref time.Time) *prepared {
 		scheme, q.storeType = schemeSigningAuthority, "signingAuthority"
 	}
 	signingTime := at(p.signSec).Add(time.Duration(p.signNanos))
+	q.signingTime = signingTime
 	var expiry time.Time
 	if p.expiry != nil {
 		expiry = at(*p.expiry)
@@ -632,6 +648,10 @@ func concretise(w *world, p plan, id int, ref time.Time) *prepared {
 	default:
 		tsa := map[string]*TSA{"A": w.tsaA, "B": w.tsaB, "C": w.tsaC, "nonCrit": w.nonCrit, "codeSign": w.codeSign,
 			"twoEKU": w.twoEKU, "badKU": w.badKU, "short": w.short, "caStore": w.caStoreTS, "expired": w.expired}[p.token]
+		if tsa == nil {
+			tsa = w.crlTSA[p.token]
+		}
+		q.tsaChain = []*x509.Certificate{tsa.Leaf.Cert, tsa.Root.Cert}
 		msg := env.SignatureValue()
 		if p.wrongMsg {
 			msg = build().SignatureValue() // a token issued for another signature over the same content
@@ -641,6 +661,9 @@ func concretise(w *world, p plan, id int, ref time.Time) *prepared {
 			Baseline: p.baseline, BadSignature: p.badSig})
 		root := map[string]string{"A": "A", "B": "B", "C": "C", "caStore": "D", "nonCrit": "A", "codeSign": "A", "twoEKU": "A",
 			"badKU": "A", "short": "A", "expired": "A"}[p.token] // D is held by the ca / signingAuthority store only
+		if _, ok := w.crlTSA[p.token]; ok {
+			root = "A"
+		}
 		validAt := func(c *x509.Certificate) bool { return !gen.Before(c.NotBefore) && !gen.After(c.NotAfter) }
 		purposeOK := p.token != "nonCrit" && p.token != "codeSign" && p.token != "twoEKU"
 		in.Token = &Token{Parses: true, ImprintMatches: !p.wrongMsg, GenTime: rel(gen),
@@ -672,16 +695,73 @@ type ociVerifier interface {
 type session struct {
 	w         *world
 	store     *common.MemStore
-	rev       *common.ScriptedRevocation
+	rev       *common.ScriptedRevocation // script of the timestamping validator (unused when realTS is set)
+	realTS    revocation.Validator       // notation-core-go's validator instead of the script (see stages.go)
+	tsRec     *recorder                  // what the verifier asked the timestamping validator
+	csRec     *recorder                  // what it asked the code-signing validator (which always answers OK)
 	verifiers map[string]ociVerifier
 	uses      map[string]int
 }
 
-func newSession(w *world) *session {
-	s := &session{w: w, store: common.NewMemStore(), rev: &common.ScriptedRevocation{}, verifiers: map[string]ociVerifier{}, uses: map[string]int{}}
+// recorder is a revocation.Validator that records the options of every call and delegates.
+type recorder struct {
+	inner revocation.Validator
+	calls []revocation.ValidateContextOptions
+}
+
+func (r *recorder) ValidateContext(ctx context.Context, opts revocation.ValidateContextOptions) ([]*revresult.CertRevocationResult, error) {
+	r.calls = append(r.calls, opts)
+	return r.inner.ValidateContext(ctx, opts)
+}
+
+func newSession(w *world) *session { return newSessionWith(w, nil) }
+
+func newSessionWith(w *world, realTS revocation.Validator) *session {
+	s := &session{w: w, store: common.NewMemStore(), rev: &common.ScriptedRevocation{}, realTS: realTS, verifiers: map[string]ociVerifier{}, uses: map[string]int{}}
 	s.store.Empty["tsa:empty"] = true
 	s.store.Errs["tsa:broken"] = errors.New("scripted load failure")
+	s.tsRec = &recorder{inner: s.rev}
+	if realTS != nil {
+		s.tsRec.inner = realTS
+	}
+	s.csRec = &recorder{inner: &common.ScriptedRevocation{Results: common.UniformResults(revresult.ResultOK)}}
 	return s
+}
+
+func sameChain(a, b []*x509.Certificate) bool {
+	if len(a) != len(b) {
+		return false
+	}
+	for k := range a {
+		if !a[k].Equal(b[k]) {
+			return false
+		}
+	}
+	return true
+}
+
+// checkRevocationArgs: was every revocation question asked about the right chain as of the right
+// time?  The TSA chain is judged as of now (no authentic signing time: a TSA certificate revoked
+// with a later invalidity date is revoked); the signing chain gets the authentic signing time
+// under signingAuthority and nothing under notary.x509.
+func (s *session) checkRevocationArgs(q *prepared) (tsaOk, signingOk bool) {
+	tsaOk, signingOk = true, true
+	for _, c := range s.tsRec.calls {
+		if !c.AuthenticSigningTime.IsZero() || q.tsaChain == nil || !sameChain(c.CertChain, q.tsaChain) {
+			tsaOk = false
+		}
+	}
+	for _, c := range s.csRec.calls {
+		if !sameChain(c.CertChain, q.chain) {
+			signingOk = false
+		}
+		if q.p.scheme == "signingAuthority" {
+			signingOk = signingOk && c.AuthenticSigningTime.Equal(q.signingTime)
+		} else {
+			signingOk = signingOk && c.AuthenticSigningTime.IsZero()
+		}
+	}
+	return
 }
 
 func (s *session) newVerifier(stmt string, trustStores []string, option string) ociVerifier {
@@ -689,7 +769,6 @@ func (s *session) newVerifier(stmt string, trustStores []string, option string) 
 		Override: map[trustpolicy.ValidationType]trustpolicy.ValidationAction{
 			trustpolicy.TypeExpiry:             trustpolicy.ActionLog,
 			trustpolicy.TypeAuthenticTimestamp: trustpolicy.ActionLog,
-			trustpolicy.TypeRevocation:         trustpolicy.ActionSkip,
 		}}
 	if option != "unset" {
 		sv.VerifyTimestamp = trustpolicy.TimestampOption(option)
@@ -698,7 +777,8 @@ func (s *session) newVerifier(stmt string, trustStores []string, option string) 
 		Name: stmt, RegistryScopes: []string{"*"}, SignatureVerification: sv,
 		TrustStores: append([]string{}, trustStores...), TrustedIdentities: []string{"*"},
 	}}}
-	v, err := verifier.NewVerifierWithOptions(s.store, verifier.VerifierOptions{OCITrustPolicy: doc, RevocationTimestampingValidator: s.rev})
+	v, err := verifier.NewVerifierWithOptions(s.store, verifier.VerifierOptions{OCITrustPolicy: doc,
+		RevocationTimestampingValidator: s.tsRec, RevocationCodeSigningValidator: s.csRec})
 	if err != nil {
 		panic(err)
 	}
@@ -737,7 +817,7 @@ func (s *session) script(q *prepared) {
 		}
 		s.store.Certs["tsa:"+st] = certs
 	}
-	s.rev.Calls = nil
+	s.rev.Calls, s.tsRec.calls, s.csRec.calls = nil, nil, nil
 	s.rev.Results = func(c []*x509.Certificate) ([]*revresult.CertRevocationResult, error) {
 		if p.revErr {
 			return nil, errors.New("scripted validator failure")
@@ -758,10 +838,11 @@ func (s *session) script(q *prepared) {
 // tenant's long-lived ones.  It returns the clock readings taken immediately before and after the call.
 func (s *session) execute(q *prepared, fresh bool) (Obs, time.Time, time.Time) {
 	var v ociVerifier
+	host := s
 	if fresh {
-		t := newSession(s.w)
-		t.script(q)
-		v = t.newVerifier(stmtOf(&q.p), q.trustStores, q.p.option)
+		host = newSessionWith(s.w, s.realTS)
+		host.script(q)
+		v = host.newVerifier(stmtOf(&q.p), q.trustStores, q.p.option)
 	} else {
 		s.script(q)
 		v = s.verifierFor(q)
@@ -797,6 +878,7 @@ func (s *session) execute(q *prepared, fresh bool) (Obs, time.Time, time.Time) {
 	// of the scheme's type), so both results must be there; if an earlier validation stopped the
 	// verification the case is reported as "not evaluated" - a violation with a replay, not a crash.
 	o.Evaluated = seenE && seenT && verr == nil
+	o.TsaRevocationArgsOk, o.SigningRevocationArgsOk = host.checkRevocationArgs(q)
 	if !o.Evaluated {
 		o.ExpiryFailed, o.AuthTsFailed = false, false
 	}
@@ -1018,7 +1100,8 @@ func Run(c *common.Ctx) error {
 	tenants := []*session{newSession(w), newSession(w)}
 	s := tenants[0]
 	T, ll := startLongLived(c, s)
-	lastTrust := map[string]bool{} // statement name + store list -> was the last token's TSA root trusted there?
+	waitProbes := launchProbes(w, c.Thorough()) // real-time clock probes run beside the stream (stages.go)
+	lastTrust := map[string]bool{}              // statement name + store list -> was the last token's TSA root trusted there?
 	total := 2500
 	if c.Thorough() {
 		total = 24000
@@ -1066,6 +1149,12 @@ func Run(c *common.Ctx) error {
 			c.Count("range=" + p.rangeKind)
 		}
 	}
+	nReal := 30
+	if c.Thorough() {
+		nReal = 150
+	}
+	realRevocationStage(c, w, nReal)
+	emitProbes(c, waitProbes())
 	finishLongLived(c, s, T, ll)
 	maxUses, shapes := 0, 0
 	for _, t := range tenants {
